@@ -101,7 +101,7 @@ def norm_tree(t):
 
 
 HOSTILE_NAMES = ['a"b', "a<b", "a&b", "a'b", "x\"><y z=\"", "&amp;", "]]>", "a>b", "caf\xe9", "n\x01m"]
-HOSTILE_TEXT = ["<", "&", '"', ">", "'", "\x01", "\x0b", "\x7f", "\xe9", "A"]
+HOSTILE_TEXT = ["<", "&", '"', ">", "'", "\x01", "\x0b", "\x7f", "\xe9", "A", "\x00", "\x08", "\x0c", "\x0e", "\x1f", "\x1e"]
 
 
 def gen_doc(rng):
@@ -586,3 +586,28 @@ def _one_encoder(conv, a, b, c, result, trace):
 
 
 sc.ens("every-piece-whatever-its-characters-goes-through-the-single-encoder-of-the-requested-codec", _one_encoder)
+
+
+
+@exhaustive("strip-control-removes-every-forbidden-control-character", props=["C11"],
+            note="the real XMLConverter.write_text with stripcontrol=True on each of the first 65 536 code points (one at a time, and inside 'a?b'): the written "
+                 "character data contains no C0 control character other than TAB, LF, CR, and every other character survives (escaped)")
+def _():
+    import io
+    fails = []
+    forbidden = set(range(0, 9)) | {11, 12} | set(range(14, 32))
+    rs = real_module("pdfminer.pdfinterp").PDFResourceManager()
+    for cp in range(0x10000):
+        if 0xD800 <= cp <= 0xDFFF:
+            continue
+        out = io.StringIO()
+        cv = conv.XMLConverter(rs, out, codec="", stripcontrol=True)
+        start = len(out.getvalue())
+        cv.write_text("a" + chr(cp) + "b")
+        got = out.getvalue()[start:]
+        want = "ab" if cp in forbidden else "a" + _html.escape(chr(cp)) + "b"
+        if got != want:
+            fails.append(dict(code_point=cp, got=got, want=want))
+            if len(fails) >= 3:
+                break
+    return dict(cases=0x10000 - 2048, failures=fails)
